@@ -30,7 +30,8 @@ def exhaustive(tier):
 
 def required(tier):
     return ["B:n<1000", "B:n%1000==0", "B:n>=10^7", "B:split_sum_differs", "B:n>=2^53", "TS:no_exponent", "TS:exponent", "A:anchor",
-            "tick_digits>=10", "leading_zeros", "chart_without_anchors_after_chart_with_anchors", "ambient_decimal_context_lowered"]
+            "tick_digits>=10", "leading_zeros", "chart_without_anchors_after_chart_with_anchors", "ambient_decimal_context_lowered",
+            "whole_generated_chart"]
 
 
 def shards(tier, seed):
@@ -45,6 +46,7 @@ def shards(tier, seed):
         out.append({"name": "ts-0", "kind": "ts", "count": 3000})
         out.append({"name": "tshuge-0", "kind": "ts", "count": 600})
         out.append({"name": "digits-0", "kind": "digits", "count": 1500})
+        out += [{"name": f"charts-{i}", "kind": "charts", "count": 60} for i in range(2)]
     else:
         step = 125000
         for i in range(10**7 // step):
@@ -56,6 +58,7 @@ def shards(tier, seed):
             out.append({"name": f"ts-{i}", "kind": "ts", "count": 20000})
             out.append({"name": f"tshuge-{i}", "kind": "ts", "count": 3000})
             out.append({"name": f"digits-{i}", "kind": "digits", "count": 10000})
+        out += [{"name": f"charts-{i}", "kind": "charts", "count": 1500} for i in range(8)]
     return out
 
 
@@ -196,6 +199,11 @@ def run_shard(shard, rec, tier, seed):
         decimal.getcontext().prec = 4
         decimal.getcontext().rounding = decimal.ROUND_DOWN
         rec.cls("ambient_decimal_context_lowered")
+    if k == "charts":
+        from vmon import mcheck
+
+        mcheck.whole_charts(rec, ("C08",), seed, ID, shard["name"], shard["count"])
+        return harness.finish(rec)
     if k == "enum":
         ns = list(range(shard["lo"], shard["hi"] + 1))
         for i in range(0, len(ns), 25000):
